@@ -16,6 +16,7 @@ class _Dir:
         self.wire = bytearray()
         self.fin = False          # FIN queued behind the data
         self.blackhole = False    # bytes and FIN vanish silently
+        self.swallowed = 0        # bytes accepted from the sender since the direction became a blackhole
         self.filter = None        # MITM: callable(bytes)->bytes applied when bytes enter the wire
         self.total = 0            # bytes that ever entered the wire (before filter)
         self.delivered = 0        # bytes handed to the receiver
@@ -190,6 +191,9 @@ class SimTransport:
         """Mirror of FileDescriptor.doWrite: move user-space buffer into the wire."""
         d = self.out
         room = self.net.wire_capacity - len(d.wire)
+        if d.blackhole and self.net.blackhole_sndbuf is not None:
+            # nothing is acknowledged any more: the kernel's send buffer fills up and then takes no more
+            room = self.net.blackhole_sndbuf - d.swallowed
         if self.outbuf and room > 0:
             chunk = bytes(self.outbuf[:room])
             del self.outbuf[:len(chunk)]
@@ -198,6 +202,8 @@ class SimTransport:
                 chunk = d.filter(chunk)
             if not d.blackhole:
                 d.wire += chunk
+            else:
+                d.swallowed += len(chunk)
         if not self.outbuf:
             self.writing = False
             if self.producer is not None and (not self.streamingProducer or self.producerPaused):
@@ -415,6 +421,7 @@ class SimReactor(Clock):
         self.refuse = set()      # hosts/(host,port) that answer RST
         self.default_buffer_size = 2 ** 16
         self.wire_capacity = 2 ** 18
+        self.blackhole_sndbuf = None   # None: a blackholed direction accepts without bound; n: only n more bytes
         self.default_mode = "tcp"
         self.mode_for_port = {}
         self.triggers = []
@@ -601,7 +608,9 @@ class SimReactor(Clock):
                     continue
                 if t.connected and t.writing:
                     d = t.out
-                    if (not t.outbuf) or len(d.wire) < self.wire_capacity or d.blackhole:
+                    if d.blackhole and self.blackhole_sndbuf is not None and t.outbuf and d.swallowed >= self.blackhole_sndbuf:
+                        pass       # send buffer full and nothing acknowledged: the write side is stuck
+                    elif (not t.outbuf) or len(d.wire) < self.wire_capacity or d.blackhole:
                         acts.append(("flush", ("flush", link.id, t.end), t))
                 d = t.inc
                 if t.connected:
